@@ -5,7 +5,8 @@
 (*   base   the built-in and experimental tables at process start          *)
 (*   hist   a Compile-call history: per call the outcome, the              *)
 (*          configuration observed after every option, the evaluation of   *)
-(*          the compiled expression, and what a fresh Compile and          *)
+(*          the compiled expression (at once, and again after the last     *)
+(*          call of the history), and what a fresh Compile and             *)
 (*          funcs.Clone() see after the call                               *)
 (*   sched  a gated schedule: per evaluation the result, the result of     *)
 (*          the isolated sequential run and the call's time bracket        *)
@@ -40,11 +41,11 @@ StepOK(call, d, k) ==
      /\ d.missing = <<>> /\ d.altered = <<>>
      /\ d.perm = c.perm /\ d.xform = c.xform
 
-HistEvalOK(den, ob) ==
+HistEvalOK(den, out) ==
   LET nd == den.prog[1]
-  IN IF ob.eval.k \in {"panic", "timeout"} THEN FALSE
+  IN IF out.k \in {"panic", "timeout"} THEN FALSE
      ELSE IF nd.n = "fn" /\ den.bind[1].src # "custom" THEN TRUE
-     ELSE EvalMatches(ob.eval, EvalDen(den, [eid |-> 0, r |-> 1, opts |-> <<>>], 0), <<>>, ob.eval, ob.eval)
+     ELSE EvalMatches(out, EvalDen(den, [eid |-> 0, r |-> 1, opts |-> <<>>], 0), <<>>, out, out)
 
 AfterProblem(a) ==
   IF a.probe # "ok" THEN "probe-compile-failed"
@@ -62,7 +63,8 @@ CallProblem(call, ob) ==
      ELSE IF \E k \in 1..Len(call.opts) : ~StepOK(call, ob.steps[k], k)
             THEN "config-after-option|" \o OptCode(call.opts[CHOOSE k \in 1..Len(call.opts) : ~StepOK(call, ob.steps[k], k)])
      ELSE IF ob.out # want THEN "compile|want-" \o want \o "-got-" \o ob.out
-     ELSE IF call.api = "fhirpath" /\ den.ok /\ ~HistEvalOK(den, ob) THEN "bound-function|eval-" \o ob.eval.k
+     ELSE IF call.api = "fhirpath" /\ den.ok /\ ~HistEvalOK(den, ob.eval) THEN "bound-function|eval-" \o ob.eval.k
+     ELSE IF call.api = "fhirpath" /\ den.ok /\ ~HistEvalOK(den, ob.late) THEN "bound-function|changed-after-later-calls|eval-" \o ob.late.k
      ELSE IF AfterProblem(ob.after) # "" THEN "after|" \o AfterProblem(ob.after)
      ELSE ""
 
